@@ -4,20 +4,24 @@ from harness.common.rng import Rng
 from harness.common import sim
 
 PROP = "C16"
-LEAN_MODULES = ["LunaVerif.Props.C16"]
+LEAN_MODULES = ["LunaVerif.Props.C16", "LunaVerif.Lemmas.C16Host", "LunaVerif.Props.C16Stream"]
 DRIVER = "Driver/C16.lean"
-REQUIRED_THEOREMS = ["iso_out_whole_packets_only_partial", "queue_accepts_burst", "iso_fifo_inputs_legal"]
+REQUIRED_THEOREMS = ["iso_out_whole_packets_only_partial", "queue_accepts_burst", "iso_fifo_inputs_legal",
+                     # end-to-end over raw receive histories (Props/C16Stream.lean)
+                     "iinv_step", "iso_out_whole_packets_only", "iso_out_prefix", "iso_out_complete_when_drained"]
 RULE = ("cases = (max_packet_size, buffer_size) x consumer pattern x seed; the endpoint is driven standalone at its "
         "EndpointInterface with the timing of USBDataPacketReceiver (valid rises, bytes with 0..2 wait cycles, valid "
         "falls together with rx_complete or rx_invalid); packet sizes 0..max, corrupted packets, packets for other "
         "endpoints / non-OUT tokens; consumer: always ready, stalled for long stretches (buffer partly and "
         "completely full when packets arrive), random")
-ASSUMPTIONS = ["interface.rx has the shape USBDataPacketReceiver produces: each packet ends with exactly one of "
-               "rx_complete / rx_invalid in the cycle valid falls, packets are >= 4 cycles apart, sizes <= max_packet_size",
-               "the tokenizer fields are stable from before a data packet until its completion strobes have passed"]
-PARTIAL = ("the theorem is stated on the endpoint glue driven by the boundary detector's event stream and the "
-           "commit/rollback queue (C28 and C18 are used as black boxes through their refinement theorems); the "
-           "cycle-level composition is tied by co-simulation only")
+ASSUMPTIONS = ["LegalRx (lean/LunaVerif/Lemmas/C16Host.lean, decidable acceptor IPhase.step; the generated stimulus is checked "
+               "against it cycle by cycle through the model driver's 5th output): in words the two items below, and "
+               "max_packet_size >= 1",
+               "interface.rx has the shape USBDataPacketReceiver produces: each packet ends with exactly one of "
+               "rx_complete / rx_invalid in the cycle valid falls, no byte in the two cycles after that, sizes <= max_packet_size",
+               "the tokenizer fields are stable from a packet's first byte until its completion strobes have passed "
+               "(two cycles after valid fell)"]
+PARTIAL = ""     # iso_out_whole_packets_only is proved end to end for every LegalRx history (see notes/C16.md)
 KNOWN_SIGS = {}
 
 EP = 3
@@ -172,6 +176,10 @@ def run_case(desc):
         fails.append({"cycle": 0, "sig": "iso-dropped-with-ready-consumer", "what":
                       "consumer always ready, yet only %d of %d eligible packets were delivered" % (delivered, nelig)})
     tags = sorted(tags) + ["mps=%d buffer=%d" % (mps, buf), "pattern=" + desc.get("pattern", "replay")]
+    # 5th compared column: the Lean acceptor of `LegalRx` (hypothesis of iso_out_whole_packets_only) accepts the history
+    # up to this cycle (not compared for replays of foreign stimuli)
+    legal = None if desc.get("stimulus") is not None else 1
+    rows = [list(r) + [legal] for r in rows]
     return Case([EP, mps, buf], stim, rows, fails, tags, desc,
                 ["rx_valid", "rx_next", "rx_payload", "rx_complete", "rx_invalid", "tok_endpoint", "tok_is_out", "ready"],
-                ["valid", "data", "first", "last"])
+                ["valid", "data", "first", "last", "legal_rx_prefix"])
